@@ -27,6 +27,8 @@ import (
 	"strings"
 	"time"
 
+	"seehuhn.de/go/postscript"
+
 	"verif/mc"
 	"verif/model/pscmp"
 	"verif/model/psrun"
@@ -350,6 +352,82 @@ func repetitionFamily(budget time.Duration) mc.Family {
 	}
 }
 
+// nestedForallFamily: forall inside forall (inside forall) over every mix of
+// arrays, strings and dictionaries, incl. the same dictionary at two levels.
+// The bodies only count and add, so the result does not depend on the order in
+// which a dictionary is enumerated and is known in closed form (the reference
+// machine leaves dictionary enumeration undefined, so it is not asked).
+func nestedForallFamily(budget time.Duration) mc.Family {
+	type cont struct {
+		text, drop, add string
+		n, sum          int
+	}
+	conts := []cont{
+		{"[1 2]", "pop", "add", 2, 3},
+		{"[1 2 3]", "pop", "add", 3, 6},
+		{"(ab)", "pop", "add", 2, 97 + 98},
+		{"<< /a 1 /b 2 >>", "pop pop", "exch pop add", 2, 3},
+		{"<< /c 3 /d 4 /e 5 >>", "pop pop", "exch pop add", 3, 12},
+		{"dd", "pop pop", "exch pop add", 2, 15},
+		{"<< >>", "pop pop", "exch pop add", 0, 0},
+	}
+	const pre = "/dd << /p 7 /q 8 >> def 0 "
+	type prog struct {
+		text string
+		want int
+	}
+	var progs []prog
+	b2i := func(b bool) int {
+		if b {
+			return 1
+		}
+		return 0
+	}
+	for _, o := range conts {
+		for _, i := range conts {
+			progs = append(progs,
+				// count the inner iterations
+				prog{fmt.Sprintf("%s%s {%s %s {%s 1 add} forall} forall", pre, o.text, o.drop, i.text, i.drop), o.n * i.n},
+				// add the inner values
+				prog{fmt.Sprintf("%s%s {%s %s {%s} forall} forall", pre, o.text, o.drop, i.text, i.add), o.n * i.sum},
+				// leave the inner loop at once
+				prog{fmt.Sprintf("%s%s {%s %s {%s 1 add exit} forall} forall", pre, o.text, o.drop, i.text, i.drop), o.n * b2i(i.n > 0)},
+				// leave the outer loop after one inner run
+				prog{fmt.Sprintf("%s%s {%s %s {%s 1 add} forall exit} forall", pre, o.text, o.drop, i.text, i.drop), b2i(o.n > 0) * i.n},
+				// the outer loop's operands stay on the stack while the inner loop runs
+				prog{fmt.Sprintf("%s%s {%s {%s 100 add} forall %s} forall", pre, o.text, i.text, i.drop, o.add), o.sum + 100*i.n*o.n},
+			)
+			for _, m := range conts {
+				progs = append(progs, prog{fmt.Sprintf("%s%s {%s %s {%s %s {%s 1 add} forall} forall} forall", pre, o.text, o.drop, m.text, m.drop, i.text, i.drop), o.n * m.n * i.n})
+			}
+		}
+	}
+	return mc.Family{
+		Name: "nested-forall", Items: len(progs), Budget: budget,
+		Rule: fmt.Sprintf("%d programs: forall over X inside forall over Y (and a third level) for all X, Y, Z from 2 arrays, a string, 3 dictionary literals (one empty) and a named dictionary (also the same dictionary at several levels); bodies count iterations, add the values, leave the inner or the outer loop, or keep the outer operands on the stack during the inner loop: the result is independent of dictionary order and compared with its closed form; non-trivial = all", len(progs)),
+		Body: func(c *mc.Ctx, item int) mc.Verdict {
+			p := progs[item]
+			intp := postscript.NewInterpreter()
+			intp.MaxOps = 100000
+			err := intp.ExecuteString(p.text)
+			c.Step()
+			got := pscmp.ShowStack(intp.Stack)
+			if err != nil || len(intp.Stack) != 1 || intp.Stack[0] != postscript.Integer(p.want) {
+				v := mc.Fail("C03:nested-forall:wrong-result", fmt.Sprintf("program `%s`: error %v, operand stack [%s], expected [%d]", p.text, err, got, p.want))
+				v.Render = p.text
+				return v
+			}
+			v := mc.Pass("nested-forall-ok", true)
+			if c.Render() {
+				v.Render = p.text + " → " + got
+			}
+			return v
+		},
+		Describe: func(item int) string { return progs[item].text },
+		CrashKey: func(item int) string { return "C03:crash:nested-forall" },
+	}
+}
+
 func dictstackFamily(budget time.Duration) mc.Family {
 	var progs []string
 	probes := []string{"q", "/q load", "/q where {/q get} {-1} ifelse", "currentdict /q known", "/q where {pop 1} {0} ifelse count"}
@@ -454,6 +532,7 @@ func main() {
 				dictstackFamily(budget),
 				loopOperandsFamily(budget),
 				repetitionFamily(budget),
+				nestedForallFamily(budget),
 			}
 		},
 	})
